@@ -49,6 +49,7 @@ fn main() {
         "C11" => props::c11::run(&a),
         "C12" => props::c12::run(&a),
         "C20" => props::c20::run(&a),
+        "C18" => props::c18::run(&a),
         _ => { eprintln!("unknown property {}", prop); std::process::exit(2); }
     }
 }
